@@ -287,6 +287,60 @@ def cas : Cas :=
         idx := [("x.Doc", [{ b := 0, e := 2, oid := 0 }])] })],
     nextXid := 3, nextSofaNum := 2 }
 
+/-! ### counterexamples for the side conditions of `CollFs` (`Spec/RoundTripCollFrag.lean`)
+
+`run h` = (`collAppliesB`, `roundTripDiffs`) on the demo CAS over the heap `h`; every heap below is the demo heap with
+one object replaced.  The evaluated results are in the comments (re-evaluate by uncommenting the `#eval`). -/
+
+/-- the demo heap with slot `n` of the first structure set to `v` -/
+def setSlot0 (h : Heap) (n : String) (v : Val) : Heap :=
+  match h with
+  | o :: rest => { o with slots := alistSet o.slots n v } :: rest
+  | [] => []
+
+def run (h : Heap) : Bool × Except Err (List (Int × Option String)) :=
+  (collAppliesB K ts [cas] 0 h, roundTripDiffs K ts [cas] 0 h 0 1)
+
+/-- the instance itself: the test answers `true`, nothing differs -/
+def cx_demo := run hp                                                        -- (true, ok [])
+/-- (S1) an FSArray with a null element, inlined / shared: the writer raises -/
+def cx_fsarray_null := run (hp.set 11 (arr "uima.cas.FSArray" (.refs [some 1, none])))        -- (false, error AttributeError)
+def cx_fsarray_null_shared := run (hp.set 23 (arr "uima.cas.FSArray" (.refs [some 1, none]))) -- (false, error AttributeError)
+/-- (S2) an inlined array with `elements = None` comes back as `None` -/
+def cx_inline_elements_none := run (hp.set 2 (arr "uima.cas.IntegerArray" .none))            -- (false, ok [(2, "ia")])
+def cx_inline_elements_none_fs := run (hp.set 11 (arr "uima.cas.FSArray" .none))             -- (false, ok [(2, "fsa")])
+def cx_inline_elements_none_str := run (hp.set 9 (arr "uima.cas.StringArray" .none))         -- (false, ok [(2, "sa")])
+/-- … whereas an array *object* of a non-string type may have `elements = None` -/
+def ok_obj_elements_none := run (hp.set 24 (arr "uima.cas.IntegerArray" .none))              -- (true, ok [])
+def ok_obj_elements_none_fs := run (hp.set 23 (arr "uima.cas.FSArray" .none))                -- (true, ok [])
+/-- (S3) a StringArray object with `elements = None` comes back with `elements = []` -/
+def cx_strarray_obj_none := run (hp.set 25 (arr "uima.cas.StringArray" .none))               -- (false, ok [(6, "elements")])
+/-- (S4) an empty inlined StringList comes back as `None` (the other inlined lists may be empty) -/
+def cx_inline_strlist_empty :=
+  run (setSlot0 hp "sl" (.ref 20))              -- (false, ok [(2, "sl")])
+def ok_inline_lists_empty :=
+  run (setSlot0 (setSlot0 (setSlot0 hp "il" (.ref 15)) "fsl" (.ref 12)) "fl" (.ref 19))   -- (true, ok [])
+/-- (S5) float tokens with a blank / empty -/
+def cx_float_token_blank := run (hp.set 7 (arr "uima.cas.FloatArray" (.floats ["1.5 2.5"]))) -- (false, ok [(2, "fa")])
+def cx_float_token_empty := run (hp.set 7 (arr "uima.cas.FloatArray" (.floats [""])))        -- (false, ok [(2, "fa")])
+def cx_float_list_token_empty :=
+  run (hp.set 18 (node "uima.cas.NonEmptyFloatList" (.float "") (.ref 19)))                  -- (false, ok [(2, "fl")])
+/-- (S6) bytes outside `0 … 255` -/
+def cx_byte_range := run (hp.set 5 (arr "uima.cas.ByteArray" (.ints [256])))                 -- (false, error ValueError)
+def cx_byte_negative := run (hp.set 5 (arr "uima.cas.ByteArray" (.ints [-1])))               -- (false, ok [(2, "ba")])
+/-- (S7) a null head in an inlined FSList / IntegerList: the writer raises; a cyclic spine -/
+def cx_fslist_null_head := run (hp.set 14 (node "uima.cas.NonEmptyFSList" .none (.ref 12)))  -- (false, error AttributeError)
+def cx_intlist_null_head :=
+  run (hp.set 17 (node "uima.cas.NonEmptyIntegerList" .none (.ref 15)))                      -- (false, error TypeError)
+def cx_cyclic_spine := run (hp.set 14 (node "uima.cas.NonEmptyFSList" (.ref 0) (.ref 13)))   -- (false, error OutOfFuel)
+/-- no condition: an inlined array shared by two features, or inlined and referenced as a shared one as well -/
+def ok_inline_shared_twice :=
+  run (setSlot0 hp "sha" (.ref 2))              -- (true, ok [])
+def ok_inline_and_shared :=
+  run (setSlot0 hp "mia" (.ref 2))              -- (true, ok [])
+
+-- #eval cx_demo
+
 end CollDemo
 
 end Cassis.Xmi
